@@ -138,6 +138,32 @@ def query_encoding(rep, ex: Explorer, cls=CI):
                       extracted=("default of the parameter: " if e.ignore is None else "") + repr(iv_)[:100], required="nothing ignored", function=site)
             side[role] = ("mcs", e.cid)
         if set(side) != {"v", "f"}:
+            # a returning path on which one family was never computed (the loop over the two sides left early: an expiry seen
+            # between them, a guard): what is returned may rest only on the family that was computed and found empty - V=∅ gives
+            # "no constraint", F=∅ the unsatisfiable constraint, whatever the other is.  Anything else reads the missing family
+            # as empty without anybody having looked
+            if not mcs:
+                rep.violation("C.query-edges", site, "result without any family", "a query constraint is returned only after the query's correction sets were computed",
+                              extracted=f"returns on a path that computes no correction sets at all (decided by: {'; '.join(show_pred(k)[:50] + '=' + str(v) for k, v in p.decisions[-3:])})"[:300], required="both families computed, or TimeoutError", function=site)
+                continue
+            if not side:
+                continue  # (reported above as a wrong hard side)
+            have = next(iter(side), None)
+            emp = decided(p, ("empty", side[have])) if have else None
+            rv_ = p.outcome[1]
+            csp_ = rv_.items[0] if isinstance(rv_, TupleV) and rv_.items else rv_
+            vw_ = view(p.state, csp_)
+            if vw_ == ("list", ()):
+                got_ = "no constraint"
+            elif isinstance(vw_, tuple) and vw_[0] == "list" and len(vw_[1]) == 1 and vw_[1][0][0] == "one" and _is_false_constraint(vw_[1][0][1]):
+                got_ = "unsatisfiable constraint"
+            else:
+                got_ = "minimum encoding"
+            ok_ = emp is True and got_ == ("no constraint" if have == "v" else "unsatisfiable constraint")
+            missing = "falsifying" if have == "v" else "verifying"
+            rep.check(ok_, "C.query-edges", site, f"result without the {missing} family", f"a query constraint is returned only after both families of correction sets were computed, or after the one computed was found empty (an unflagged answer must not rest on a family nobody enumerated)",
+                      extracted=f"returns '{got_}' on a path that never computes the {missing} correction sets (decided by: {'; '.join(show_pred(k)[:50] + '=' + str(v) for k, v in p.decisions[-3:])})"[:300],
+                      required="both families computed, or TimeoutError", function=site)
             continue
         EV = decided(p, ("empty", side["v"]))
         EF = decided(p, ("empty", side["f"]))
